@@ -13,8 +13,14 @@ for n,sid in enumerate(seeds,1):
     t=tempfile.mkdtemp(prefix='dg.',dir='/var/tmp')
     try:
         subprocess.run(['rsync','-a','--exclude','.git','/repo/',t+'/'],check=True)
+        base='working tree'
         if subprocess.run(['git','apply','--whitespace=nowarn',f],cwd=t,capture_output=True).returncode!=0 and subprocess.run('patch -p1 -s < '+f,cwd=t,shell=True,capture_output=True).returncode!=0:
-            print(sid,'does not apply'); continue
+            # written against the tree before the latest fix: evaluate it there
+            shutil.rmtree(t); os.makedirs(t)
+            subprocess.run('git -C /repo archive b140a7a | tar -x -C '+t,shell=True,check=True)
+            base='b140a7a'
+            if subprocess.run(['git','apply','--whitespace=nowarn',f],cwd=t,capture_output=True).returncode!=0:
+                print(sid,'does not apply'); continue
         if subprocess.run(['go','build','./...'],cwd=t,env=ENV,capture_output=True).returncode!=0: print(sid,'does not build'); continue
         suite='ok'
         for _ in range(2):
@@ -31,8 +37,8 @@ for n,sid in enumerate(seeds,1):
         rep=' '.join(f'{p}[{",".join(sorted(x))},]' for p,x in sorted(fired.items()))
         valid = suite=='ok' and demo.returncode!=0
         own = prop in fired
-        print(sid,'valid' if valid else f'INVALID(suite={suite},demo_exit={demo.returncode})','CAUGHT' if own else 'MISSED',rep)
-        if valid:
+        print(sid,'(on '+base+')','valid' if valid else f'INVALID(suite={suite},demo_exit={demo.returncode})','CAUGHT' if own else 'MISSED',rep)
+        if valid and base=='working tree':
             out=f'/verif/seeded/{sid}-d{n}'; os.makedirs(out,exist_ok=True)
             shutil.copy(f,out+'/patch.diff'); shutil.copy(f'/verif/seeded/{sid}/demo_test.go.txt',out+'/demo_test.go.txt')
             meta=json.load(open(f'/verif/seeded/{sid}/meta.json'))
